@@ -51,6 +51,8 @@ macro_rules! ni_conf {
             let c = <$ty>::new(&key.into());
             let mut b = blk.into();
             c.encrypt_block(&mut b);
+            // no Drop: on the zeroize build dropping the instance is a 704-byte volatile-write loop (C16's subject, not this one)
+            core::mem::forget(c);
             Some(b.0 == oracle_enc(&key, $klen / 4, &blk))
         });
         ni_harness!($dec_name, $klen + 16, |inp| {
@@ -60,6 +62,7 @@ macro_rules! ni_conf {
             let c = <$ty>::new(&key.into());
             let mut b = blk.into();
             c.decrypt_block(&mut b);
+            core::mem::forget(c);
             Some(b.0 == oracle_dec(&key, $klen / 4, &blk))
         });
     };
@@ -73,6 +76,8 @@ macro_rules! ni_conf_enc_only {
             let c = <$ty>::new(&key.into());
             let mut b = blk.into();
             c.encrypt_block(&mut b);
+            // no Drop: on the zeroize build dropping the instance is a 704-byte volatile-write loop (C16's subject, not this one)
+            core::mem::forget(c);
             Some(b.0 == oracle_enc(&key, $klen / 4, &blk))
         });
     };
@@ -86,19 +91,20 @@ macro_rules! ni_conf_dec_only {
             let c = <$ty>::new(&key.into());
             let mut b = blk.into();
             c.decrypt_block(&mut b);
+            core::mem::forget(c);
             Some(b.0 == oracle_dec(&key, $klen / 4, &blk))
         });
     };
 }
 
-//@ harness name=aes128_ni_enc prop=C02,C03 tier=quick bits=256 stub=1 variants=aes:ni,aes:ni+zeroize,aes:ni+hazmat est=90 desc="W: Aes128::new(key).encrypt_block(b) (autodetect -> AES-NI arm) == FIPS-197 KeyExpansion + Cipher; all 2^128 keys x 2^128 blocks; round bodies and S-box uninterpreted (shared with the intrinsic models)"
-//@ harness name=aes128_ni_dec prop=C02,C03 tier=quick bits=256 stub=1 variants=aes:ni,aes:ni+zeroize,aes:ni+hazmat est=75 desc="W: Aes128::new(key).decrypt_block(b) (AES-NI arm, aesimc-transformed keys) == FIPS-197 EqInvCipher; all keys and blocks"
+//@ harness name=aes128_ni_enc prop=C02,C03 tier=quick bits=256 stub=1 variants=aes:ni,aes:ni+zeroize,aes:ni+hazmat est=70 desc="W: Aes128::new(key).encrypt_block(b) (autodetect -> AES-NI arm) == FIPS-197 KeyExpansion + Cipher; all 2^128 keys x 2^128 blocks; round bodies and S-box uninterpreted (shared with the intrinsic models)"
+//@ harness name=aes128_ni_dec prop=C02,C03 tier=quick bits=256 stub=1 variants=aes:ni,aes:ni+zeroize,aes:ni+hazmat est=70 desc="W: Aes128::new(key).decrypt_block(b) (AES-NI arm, aesimc-transformed keys) == FIPS-197 EqInvCipher; all keys and blocks"
 ni_conf!(aes128_ni_enc, aes128_ni_dec, crate::Aes128, 16);
-//@ harness name=aes192_ni_enc prop=C02,C03 tier=quick bits=320 stub=1 variants=aes:ni est=60 desc="W: Aes192 encrypt (AES-NI arm; 192-bit expansion with the shuffle() recombination) == FIPS-197; all keys and blocks"
-//@ harness name=aes192_ni_dec prop=C02,C03 tier=quick bits=320 stub=1 variants=aes:ni est=70 desc="W: Aes192 decrypt (AES-NI arm) == FIPS-197 EqInvCipher; all keys and blocks"
+//@ harness name=aes192_ni_enc prop=C02,C03 tier=quick bits=320 stub=1 variants=aes:ni est=65 desc="W: Aes192 encrypt (AES-NI arm; 192-bit expansion with the shuffle() recombination) == FIPS-197; all keys and blocks"
+//@ harness name=aes192_ni_dec prop=C02,C03 tier=quick bits=320 stub=1 variants=aes:ni est=75 desc="W: Aes192 decrypt (AES-NI arm) == FIPS-197 EqInvCipher; all keys and blocks"
 ni_conf!(aes192_ni_enc, aes192_ni_dec, crate::Aes192, 24);
-//@ harness name=aes256_ni_enc prop=C02,C03 tier=quick bits=384 stub=1 variants=aes:ni est=130 desc="W: Aes256 encrypt (AES-NI arm; 256-bit expansion with the extra SubWord step) == FIPS-197; all keys and blocks"
-//@ harness name=aes256_ni_dec prop=C02,C03 tier=quick bits=384 stub=1 variants=aes:ni est=145 desc="W: Aes256 decrypt (AES-NI arm) == FIPS-197 EqInvCipher; all keys and blocks"
+//@ harness name=aes256_ni_enc prop=C02,C03 tier=quick bits=384 stub=1 variants=aes:ni est=115 desc="W: Aes256 encrypt (AES-NI arm; 256-bit expansion with the extra SubWord step) == FIPS-197; all keys and blocks"
+//@ harness name=aes256_ni_dec prop=C02,C03 tier=quick bits=384 stub=1 variants=aes:ni est=120 desc="W: Aes256 decrypt (AES-NI arm) == FIPS-197 EqInvCipher; all keys and blocks"
 ni_conf!(aes256_ni_enc, aes256_ni_dec, crate::Aes256, 32);
 
 //@ harness name=aes128enc_ni prop=C02,C12 tier=quick bits=256 stub=1 variants=aes:ni quick=C12 est=65 desc="W: Aes128Enc::new(key).encrypt_block == FIPS-197 Cipher (encrypt-only type, own constructor), AES-NI arm"
@@ -134,7 +140,7 @@ verif_harness! {
         Some(ra::inv_mix_columns(&ra::xor(&x, &k)) == ra::xor(&ra::inv_mix_columns(&x), &ra::inv_mix_columns(&k)))
     }
 }
-//@ harness name=fips_mc_inverse prop=C02,C17 tier=quick bits=268 est=70 desc="oracle lemma, FIPS MixColumns M and InvMixColumns I are mutual inverses: (a) M(x^y) == M(x)^M(y) and I(x^y) == I(x)^I(y) for all 2^128 x 2^128 pairs, (b) I(M(e)) == e and M(I(e)) == e for every state e with a single non-zero byte (position and value symbolic); every state is the XOR of its 16 single-byte components, so (a)+(b) give I o M == M o I == id (the direct composition query is a wide-parity equivalence that does not finish)"
+//@ harness name=fips_mc_inverse prop=C02,C17 tier=quick bits=268 est=75 desc="oracle lemma, FIPS MixColumns M and InvMixColumns I are mutual inverses: (a) M(x^y) == M(x)^M(y) and I(x^y) == I(x)^I(y) for all 2^128 x 2^128 pairs, (b) I(M(e)) == e and M(I(e)) == e for every state e with a single non-zero byte (position and value symbolic); every state is the XOR of its 16 single-byte components, so (a)+(b) give I o M == M o I == id (the direct composition query is a wide-parity equivalence that does not finish)"
 verif_harness! {
     name: fips_mc_inverse,
     bytes: 34,
@@ -153,7 +159,7 @@ verif_harness! {
         Some(ra::mix_columns(&ra::inv_mix_columns(&e)) == e)
     }
 }
-//@ harness name=fips_shiftrows_commute prop=C02 tier=quick bits=128 est=15 desc="oracle lemma: InvShiftRows and ShiftRows are mutually inverse, and InvShiftRows commutes with the bytewise InvSubBytes (it only moves bytes); all 2^128 states"
+//@ harness name=fips_shiftrows_commute prop=C02 tier=quick bits=128 est=10 desc="oracle lemma: InvShiftRows and ShiftRows are mutually inverse, and InvShiftRows commutes with the bytewise InvSubBytes (it only moves bytes); all 2^128 states"
 verif_harness! {
     name: fips_shiftrows_commute,
     bytes: 16,
@@ -208,11 +214,11 @@ aes_weak!(aes256_weak, crate::Aes256, 32);
 aes_weak!(aes128enc_weak, crate::Aes128Enc, 16);
 //@ harness name=aes128dec_weak prop=C13 tier=quick bits=128 est=10 desc="Aes128Dec::weak_key_test: upper half zero, all keys"
 aes_weak!(aes128dec_weak, crate::Aes128Dec, 16);
-//@ harness name=aes192enc_weak prop=C13 tier=quick bits=192 est=15 desc="Aes192Enc::weak_key_test: upper half zero, all keys"
+//@ harness name=aes192enc_weak prop=C13 tier=quick bits=192 est=10 desc="Aes192Enc::weak_key_test: upper half zero, all keys"
 aes_weak!(aes192enc_weak, crate::Aes192Enc, 24);
-//@ harness name=aes192dec_weak prop=C13 tier=quick bits=192 est=15 desc="Aes192Dec::weak_key_test: upper half zero, all keys"
+//@ harness name=aes192dec_weak prop=C13 tier=quick bits=192 est=10 desc="Aes192Dec::weak_key_test: upper half zero, all keys"
 aes_weak!(aes192dec_weak, crate::Aes192Dec, 24);
-//@ harness name=aes256enc_weak prop=C13 tier=quick bits=256 est=15 desc="Aes256Enc::weak_key_test: upper half zero, all keys"
+//@ harness name=aes256enc_weak prop=C13 tier=quick bits=256 est=10 desc="Aes256Enc::weak_key_test: upper half zero, all keys"
 aes_weak!(aes256enc_weak, crate::Aes256Enc, 32);
 //@ harness name=aes256dec_weak prop=C13 tier=quick bits=256 est=10 desc="Aes256Dec::weak_key_test: upper half zero, all keys"
 aes_weak!(aes256dec_weak, crate::Aes256Dec, 32);
